@@ -486,10 +486,10 @@ def resolve_prefix(pr, zbytes, toks):
 
 
 def state_in(pr, zbytes, real, states, nvisible=None):
-    """index j of a model state that matches the real directory; with nvisible: only prefixes of the model's
-    operation list that contain exactly that many visible (system-call level) operations are candidates"""
+    """index j of a model state that matches the real directory; with nvisible = (lo, hi): only prefixes of the
+    model's operation list whose number of visible (system-call level) operations lies in that range are candidates"""
     for j, st in enumerate(states):
-        if nvisible is not None and pr.vis[j] != nvisible:
+        if nvisible is not None and not (nvisible[0] <= pr.vis[j] <= nvisible[1]):
             continue
         if all(node_matches(pr, zbytes, n, v, real.get(n)) for n, v in st.items()):
             return j
@@ -497,9 +497,12 @@ def state_in(pr, zbytes, real, states, nvisible=None):
 
 
 def visible_done(entries, k, inclusive, relevant):
-    """number of canonical events of the calls completed before (kill) / up to (signal) call #k"""
-    done = [e for e in entries if "act" not in e and (e["idx"] <= k if inclusive else e["idx"] < k)]
-    return len(canon_real(done, relevant))
+    """(lo, hi): number of canonical events of the calls certainly completed before (kill) / up to (signal)
+    call #k, and that number plus the calls of other threads that were in flight (entered, not yet returned)"""
+    before = [e for e in entries if "act" not in e and (e["idx"] <= k if inclusive else e["idx"] < k)]
+    lo = len(canon_real([e for e in before if e["ret"] is not None or SYS.get(e["nr"]) == "exit_group"], relevant))
+    inflight = [e for e in before if e["ret"] is None and SYS.get(e["nr"]) != "exit_group"]
+    return lo, lo + len(inflight)
 
 
 # ----------------------------------------------------------------------------- direct oracles
@@ -508,6 +511,8 @@ def oracle_safe(rn, pr, real, zcache):
     """the crash_safe predicate on a real directory: every source intact, or its destination stands for it"""
     case = pr.case
     bad = []
+    alld = [pr.dst.get(x) for x in case.srcs if pr.dst.get(x)]
+    shared = case.out[2:] if case.out.startswith("o:") else None
     for s in dict.fromkeys(case.srcs):
         orig = case.files.get(s)
         if orig is None or orig == DIR:
@@ -515,6 +520,12 @@ def oracle_safe(rn, pr, real, zcache):
         if real.get(s) == orig:
             continue
         d = pr.dst.get(s)
+        if not pr.wf:
+            # outside the theorem's hypothesis: judge only the sources whose names do not collide with another
+            # source's destination (destination == the source itself stays judged: the same-file rule)
+            if case.srcs.count(s) > 1 or (d is not None and (alld.count(d) > 1 or (d in case.srcs and d != s))) \
+                    or any(pr.dst.get(x) == s for x in case.srcs if x != s) or (shared == s and len(case.srcs) > 1):
+                continue
         ok = False
         if d is not None and isinstance(real.get(d), bytes):
             got = real[d]
@@ -617,7 +628,7 @@ def check_case(rn, case, nkill, nint, rng, replay_only=None):
                                                                        ("dir" if real.get(n) == DIR else "%d bytes" % len(real[n]))))
     # ---- direct oracles on the completed run
     concrete = []
-    concrete += oracle_safe(rn, pr, real, zcache) if pr.wf else []
+    concrete += oracle_safe(rn, pr, real, zcache)
     concrete += oracle_noclobber(pr, real, final=True)
     srcs_ok = [s for s in case.srcs if isinstance(case.files.get(s), bytes)]
     if case.mode == "C":
@@ -691,7 +702,7 @@ def check_case(rn, case, nkill, nint, rng, replay_only=None):
         for k in (range(first, last + 2) if first is not None else []):
             kr = rn.execute(case, k=k, action="kill")
             kreal = read_dir(kr["w"])
-            bad = (oracle_safe(rn, pr, kreal, zcache) if pr.wf else []) + oracle_noclobber(pr, kreal)
+            bad = oracle_safe(rn, pr, kreal, zcache) + oracle_noclobber(pr, kreal)
             rn.cleanup(kr)
             if bad:
                 report("kill", "killed at system call #%d: %s (the run's file-operation sequence also differs from fio_ops: real=%s model=%s)" %
@@ -718,15 +729,15 @@ def check_case(rn, case, nkill, nint, rng, replay_only=None):
         kr = rn.execute(case, k=k, action="kill")
         kreal = read_dir(kr["w"])
         acted = any("act" in e for e in kr["entries"])
-        nv = visible_done(kr["entries"], k, False, relevant) if acted else len(pr.events)
+        nv = visible_done(kr["entries"], k, False, relevant) if acted else (len(pr.events), len(pr.events))
         j = state_in(pr, zbytes, kreal, pr.st, nv)
-        bad = (oracle_safe(rn, pr, kreal, zcache) if pr.wf else []) + oracle_noclobber(pr, kreal)
+        bad = oracle_safe(rn, pr, kreal, zcache) + oracle_noclobber(pr, kreal)
         ctx.count(("kill", case.shape(), j), nontrivial=True)
         for w_ in bad:
             report("kill", "killed at system call #%d: %s" % (k, w_),
                    dict(k=k, dir={n: (DIR if v == DIR else len(v)) for n, v in kreal.items()}))
         if j < 0 and not bad:
-            report("tie-kill", "directory after kill at system call #%d (%d file operations completed) is not the state of fio_ops after that many operations: %s" %
+            report("tie-kill", "directory after kill at system call #%d (%s file operations completed) is not the state of fio_ops after that many operations: %s" %
                    (k, nv, {n: (DIR if v == DIR else len(v)) for n, v in kreal.items()}), dict(k=k), no_input=True)
             rn.cleanup(kr)
             return nviol
@@ -747,20 +758,25 @@ def check_case(rn, case, nkill, nint, rng, replay_only=None):
                 kr = rn.execute(case, k=k, action="int", wide=True)
                 kreal = read_dir(kr["w"])
                 acted = any("act" in e for e in kr["entries"])
+                main_tid = next((e["tid"] for e in kr["entries"] if "act" not in e), None)
+                at = next((e for e in kr["entries"] if "act" not in e and e["idx"] == k), None)
+                on_main = at is None or at["tid"] == main_tid
                 if acted:
                     # the handler's own calls come after the ACT mark: count only what the run did up to call #k
                     nv = visible_done(kr["entries"], k, True, relevant)
                 else:
-                    nv = len(pr.events)
-                j = state_in(pr, zbytes, kreal, pr.si, nv)
-                bad = (oracle_safe(rn, pr, kreal, zcache) if pr.wf else []) + oracle_noclobber(pr, kreal)
+                    nv = (len(pr.events), len(pr.events))
+                # the model's handler is an atomic step of the main thread: the state tie applies when the signal
+                # lands there (on an I/O pool thread the main thread keeps running while the handler executes)
+                j = state_in(pr, zbytes, kreal, pr.si, nv) if on_main else 0
+                bad = oracle_safe(rn, pr, kreal, zcache) + oracle_noclobber(pr, kreal)
                 st = kr["status"]
                 handled = st == ("EXIT", 2)
                 ctx.count(("sigint", case.shape(), j, handled), nontrivial=True)
                 for w_ in bad:
                     report("sigint", "SIGINT at system call #%d (wide grid): %s" % (k, w_), dict(k=k))
                 if j < 0 and not bad:
-                    report("tie-sigint", "directory after SIGINT at system call #%d of the wide grid (%d file operations completed) is not a state of sigint_ops after that many operations: %s" %
+                    report("tie-sigint", "directory after SIGINT at system call #%d of the wide grid (%s file operations completed) is not a state of sigint_ops after that many operations: %s" %
                            (k, nv, {n: (DIR if v == DIR else len(v)) for n, v in kreal.items()}), dict(k=k), no_input=True)
                     rn.cleanup(kr)
                     return nviol
@@ -1097,7 +1113,7 @@ def run(ctx):
         nviol += check_cli_sparse(rn, g, not quick)
         core.log("C19 CLI sparse/no-sparse done %.1fs" % (time.time() - t0))
         cases = corpus(g)
-        nrand = 24 if quick else 150
+        nrand = 24 if quick else 400
         for i in range(nrand):
             cases.append(random_case(g, i, big=(not quick and i % 10 == 0)))
         if not quick:
@@ -1112,7 +1128,7 @@ def run(ctx):
         for ci, case in enumerate(cases):
             corpus_case = not case.name.startswith("rnd")
             nk = None if not quick else (12 if corpus_case else 6)
-            ni = (4 if corpus_case else 2) if quick else 12
+            ni = (4 if corpus_case else 2) if quick else 40
             if case.name in ("c-rm", "d-rm", "d-corrupt-rm", "c-exists-force-rm"):
                 ni = 10 ** 6          # every SIGINT point of the basic --rm runs, in both tiers
             hist[case.mode + ":" + case.out.split(":")[0]] = hist.get(case.mode + ":" + case.out.split(":")[0], 0) + 1
